@@ -118,8 +118,10 @@ def snip_comp(rng, uid):
 def snip_let(rng, uid):
     a = pick(rng, 2, 4)
     b = pick(rng, 2, 4)
+    decl = sorted(set(a + b))
+    rng.shuffle(decl)
     src = "(let [" + " ".join(f"{n} {i}" for i, n in enumerate(a)) + "]\n  (let [" + " ".join(f"{n} (+ {a[0]} {i})" for i, n in enumerate(b)) + \
-        f"]\n    (defn letf{uid} [] (nonlocal " + " ".join(sorted(set(a + b), key=lambda n: rng.random())) + ") (setv " + \
+        f"]\n    (defn letf{uid} [] (nonlocal " + " ".join(decl) + ") (setv " + \
         " ".join(f"{n} 9" for n in sorted(set(a + b))) + "))\n    [" + " ".join(a + b) + "]))\n"
     return src, len(set(a + b))
 
